@@ -26,11 +26,15 @@ def run(P, rep, tier):
         'layout grid: running offset 0..287 bits, scalar sizes 1,2,4,8,16, aggregate sizes up to 48, alignments 1..16, every bit-field width 1..8*size',
         'packed + explicit member _Alignas is outside the oracle (GNU extension interplay)',
     ]
-    r083(P, u, rep)
-    r082(P, u, rep)
-    r081(P, u, rep)
-    r084(P, u, rep)
-    r085(P, u, rep)
+    import traceback
+    for rule, f in (('R08.3', r083), ('R08.2', r082), ('R08.1', r081), ('R08.4', r084), ('R08.4', r084_alignas_specifier), ('R08.5', r085)):
+        try:
+            f(P, u, rep)
+        except AnalysisBroken as ex:          # one rule's anchors vanishing must not silence the others
+            rep.undecided(rule, '%s:%s' % (PU, f.__name__), 'analysis could not proceed: %s' % ex)
+        except Exception as ex:               # a checker bug is never a verdict
+            tb = traceback.format_exc().strip().splitlines()
+            rep.undecided(rule, '%s:%s' % (PU, f.__name__), 'internal error of the checker: %s | %s' % (ex, ' / '.join(tb[-3:])))
 
 
 # =====================================================================================
@@ -209,6 +213,8 @@ def layout_fn(P, u, rep, fname, union):
             return mk_state(ctx, cls, packed)
 
         def on_entry(it, env):
+            if not hasattr(it.ctx, 'c08'):
+                raise AnalysisBroken('%s() reaches its member loop without having called struct_union_decl()' % fname)
             t, m = it.ctx.c08
             if mode == 'step':
                 t.fields['align'] = Sym('A', 'int'); t.fields['size'] = Sym('Z', 'int')
@@ -231,6 +237,31 @@ def layout_fn(P, u, rep, fname, union):
         paths = it.explore(fname, lambda ctx: [_Ref(_ValPlace(0)), Obj('Token', lazy=True, label='tok')], max_paths=400)
         return it, paths
 
+    # ---- entry: complete types are laid out, incomplete ones are not -----------------
+    key = '%s:%s:entry' % (PU, fname)
+    try:
+        it, paths = run_mode('step', CLASSES[0], False)
+        early = [Summary(ctx, {}) for ctx, out in paths if out[0] == 'ret' and not getattr(ctx, 'c08_reached', False)]
+        inloop = [Summary(ctx, {}) for ctx, out in paths if getattr(ctx, 'c08_reached', False)]
+        base_e = {'A0': 1, 'A': 1, 'Z': 0, 'B': 0, 'S': 1, 'TA': 1, 'MA': 1, 'W': 1}
+        def _applies(lst, e):
+            r = False
+            for x in lst:
+                try:
+                    r = r or x.applies(e)
+                except KeyError:
+                    pass
+            return r
+        complete_skipped = _applies(early, dict(base_e, Z0=0)) or not _applies(inloop, dict(base_e, Z0=0))
+        incomplete_laid_out = _applies(inloop, dict(base_e, Z0=-1))
+        rep.ob('R08.3', key + '/complete', not complete_skipped,
+               'a complete %s (size 0 before layout, as struct_type() creates it) leaves %s() before its members are laid out: every member stays at offset 0 and sizeof is 0' % ('union' if union else 'struct', fname), where=where)
+        rep.ob('R08.3', key + '/incomplete', not incomplete_laid_out,
+               'an incomplete %s (size -1, forward declaration) is laid out as if it were empty: sizeof an incomplete type becomes 0 instead of an error' % ('union' if union else 'struct'), where=where)
+        if complete_skipped:
+            return       # nothing after the entry can be judged for a complete type
+    except (Uninterpretable, ZeroDivisionError) as ex:
+        rep.undecided('R08.3', key, 'entry of %s not interpretable: %s' % (fname, ex), where=where)
     # ---- step, per member class ------------------------------------------------------
     for cls in CLASSES:
         for packed in (False, True):
@@ -341,11 +372,19 @@ def layout_fn(P, u, rep, fname, union):
         rep.undecided('R08.3', base, 'size computation after the member loop not interpretable: %s: %s' % (type(ex).__name__, ex), where=where)
 
 
+def _guarded(rep, key, f, *a):
+    try:
+        f(*a)
+    except AnalysisBroken as ex:
+        rep.undecided('R08.3', key, 'analysis could not proceed: %s' % ex)
+
+
 def r083(P, u, rep):
     rep.rule('R08.3', 'struct_decl/union_decl lay one more member out exactly as psABI 3.1.2 prescribes (placement, bit-field units, alignment contribution, packed) '
-             'and round the final size to the alignment; struct and union take a member\'s alignment from the same source', floor=24)
-    layout_fn(P, u, rep, 'struct_decl', False)
-    layout_fn(P, u, rep, 'union_decl', True)
+             'and round the final size to the alignment; struct and union take a member\'s alignment from the same source; attributes and flexible arrays reach the layout', floor=50)
+    _guarded(rep, '%s:struct_decl:layout' % PU, layout_fn, P, u, rep, 'struct_decl', False)
+    _guarded(rep, '%s:union_decl:layout' % PU, layout_fn, P, u, rep, 'union_decl', True)
+    _guarded(rep, '%s:attribute_list:attributes' % PU, r083_attributes, P, u, rep)
 
 
 # =====================================================================================
@@ -529,53 +568,23 @@ def _local_enums(fn):
 
 
 def r081(P, u, rep):
-    rep.rule('R08.1', 'declspec accepts exactly the type-specifier multisets of C11 6.7.2p2, in every order, with their LP64 type; one keyword more than a valid multiset is diagnosed', floor=120)
+    rep.rule('R08.1', 'declspec accepts exactly the type-specifier multisets of C11 6.7.2p2, in every order, with their LP64 type; one keyword more than a valid multiset is diagnosed', floor=150)
     fn = u.fn('declspec')
     where = '%s:%d' % (PU, fn.line)
-    if 'is_typename' not in u.functions:
-        raise AnalysisBroken('anchor is_typename vanished')
-    typenames = set(x.str_value() for x in u.fn('is_typename').walk() if x.kind == 'StringLiteral')
+    tw = TokenWorld(P, u)
+    typenames = tw.typenames
     missing = [k for k in KEYWORDS if k not in typenames]
     rep.ob('R08.1', '%s:is_typename:specifier-keywords' % PU, not missing,
            'is_typename() does not know the type specifier(s) %s: a declaration starting with them is parsed as an expression' % missing,
            where='%s:%d' % (PU, u.fn('is_typename').line))
-    E = u.enums
-    for k in ('TK_KEYWORD', 'TK_IDENT', 'TK_EOF'):
-        if k not in E:
-            raise AnalysisBroken('token kind %s vanished' % k)
     tu = P.unit('type.c')
-    from ..interp import Ctx
-    it0 = Interp(P, tu, {})
-    it0.ctx = Ctx([])
-    tyglob = {}
-    for g, d in tu.globals.items():
-        if (d.type or '').replace(' ', '') == 'Type*' and 'init' in d.d:
-            o = it0.materialise_global(g, d)
-            if isinstance(o, Obj):
-                tyglob[g] = dict(o.fields)
+    tyglob = type_globals(P)
     kind_name = {v: n for n, v in tu.enums.items() if n.startswith('TY_')}
-
-    def m_equal(it, ctx, call, args):
-        t = it.settle(args[0]) if isinstance(args[0], View) else args[0]
-        if isinstance(t, Obj) and isinstance(t.fields.get('loc'), str) and isinstance(args[1], str):
-            return int(t.fields['loc'] == args[1])
-        raise AnalysisBroken('equal() on a non-concrete token in declspec')
-
-    def m_is_typename(it, ctx, call, args):
-        t = args[0]
-        return int(isinstance(t, Obj) and t.fields.get('kind') == E['TK_KEYWORD'] and t.fields.get('loc') in typenames)
-
-    cfg = {'models': {'equal': m_equal, 'is_typename': m_is_typename, 'find_typedef': lambda it, ctx, c, a: 0},
+    cfg = {'models': tw.models(),
            'globals': {g: (lambda ctx, g=g: Obj('Type', lazy=False, label=g, fields=dict(tyglob[g]))) for g in tyglob}}
     it = _LocalEnumInterp(P, u, cfg)
     it.local_enums = _local_enums(fn)
-
-    def tokens(seq):
-        eof = Obj('Token', lazy=False, fields={'kind': E['TK_EOF'], 'loc': '', 'len': 0, 'next': 0})
-        nxt = Obj('Token', lazy=False, fields={'kind': E['TK_IDENT'], 'loc': 'x', 'len': 1, 'next': eof})
-        for kw in reversed(seq):
-            nxt = Obj('Token', lazy=False, fields={'kind': E['TK_KEYWORD'], 'loc': kw, 'len': len(kw), 'next': nxt})
-        return nxt
+    tokens = tw.tokens
 
     cache = {}
 
@@ -681,6 +690,169 @@ def r081(P, u, rep):
 
 
 # =====================================================================================
+# concrete token streams for the parser functions analysed with Engine I
+# =====================================================================================
+class TokenWorld:
+    """models of equal()/is_typename()/find_typedef() over concrete token objects, and a token-list builder"""
+
+    def __init__(self, P, u):
+        self.u = u
+        E = u.enums
+        for k in ('TK_KEYWORD', 'TK_IDENT', 'TK_EOF', 'TK_PUNCT', 'TK_NUM'):
+            if k not in E:
+                raise AnalysisBroken('token kind %s vanished' % k)
+        self.E = E
+        if 'is_typename' not in u.functions:
+            raise AnalysisBroken('anchor is_typename vanished')
+        self.typenames = set(x.str_value() for x in u.fn('is_typename').walk() if x.kind == 'StringLiteral')
+
+    def models(self):
+        E, typenames = self.E, self.typenames
+
+        def m_equal(it, ctx, call, args):
+            t = it.settle(args[0]) if isinstance(args[0], View) else args[0]
+            if isinstance(t, Obj) and isinstance(t.fields.get('loc'), str) and isinstance(args[1], str):
+                return int(t.fields['loc'] == args[1])
+            raise AnalysisBroken('equal() on a non-concrete token')
+
+        def m_is_typename(it, ctx, call, args):
+            t = args[0]
+            return int(isinstance(t, Obj) and t.fields.get('kind') == E['TK_KEYWORD'] and t.fields.get('loc') in typenames)
+        return {'equal': m_equal, 'is_typename': m_is_typename, 'find_typedef': lambda it, ctx, c, a: 0}
+
+    def tokens(self, seq):
+        """seq: spellings; keywords/punctuators/numbers classified by spelling; ends with identifier x, EOF"""
+        E = self.E
+        eof = Obj('Token', lazy=False, fields={'kind': E['TK_EOF'], 'loc': '', 'len': 0, 'next': 0})
+        nxt = Obj('Token', lazy=False, fields={'kind': E['TK_IDENT'], 'loc': 'x', 'len': 1, 'next': eof})
+        for s in reversed(seq):
+            if s in self.typenames or s in ('__attribute__',):
+                k = E['TK_KEYWORD']
+            elif s[0].isdigit():
+                k = E['TK_NUM']
+            elif s[0].isalpha() or s[0] == '_':
+                k = E['TK_IDENT']
+            else:
+                k = E['TK_PUNCT']
+            nxt = Obj('Token', lazy=False, label='tok:' + s, fields={'kind': k, 'loc': s, 'len': len(s), 'next': nxt})
+        return nxt
+
+
+def _is_just(v, sym):
+    """v is the unknown `sym` itself (possibly through value-preserving integer casts)"""
+    try:
+        f = Fn(v)
+    except Uninterpretable:
+        return False
+    return f.syms == {sym} and f({sym: 16}) == 16 and f({sym: 48}) == 48 and f({sym: 1}) == 1
+
+
+def _cut_const_expr(sym):
+    """const_expr(&tok, tok): consumes one token, yields an unknown constant"""
+    def h(it, ctx, call, args):
+        rest, tok = args[0], args[1]
+        if not (isinstance(rest, _Ref) and isinstance(tok, Obj)):
+            raise AnalysisBroken('const_expr() called with unexpected arguments')
+        rest.place.set(it, tok.fields.get('next'))
+        return Sym(sym, 'long')
+    return h
+
+
+def r083_attributes(P, u, rep):
+    """attribute_list: packed / aligned(N) reach the type that struct_decl/union_decl lay out"""
+    fn = u.fn('attribute_list')
+    if fn is None:
+        rep.undecided('R08.3', '%s:attribute_list:anchor' % PU, 'attribute_list() vanished')
+        return
+    where = '%s:%d' % (PU, fn.line)
+    tw = TokenWorld(P, u)
+    cases = [
+        ('packed', ['__attribute__', '(', '(', 'packed', ')', ')'], {'is_packed': 1, 'align': 'A0'}),
+        ('aligned', ['__attribute__', '(', '(', 'aligned', '(', '16', ')', ')', ')'], {'is_packed': 0, 'align': 'N'}),
+        ('packed+aligned', ['__attribute__', '(', '(', 'packed', ',', 'aligned', '(', '16', ')', ')', ')'], {'is_packed': 1, 'align': 'N'}),
+        ('aligned+packed-separate', ['__attribute__', '(', '(', 'aligned', '(', '16', ')', ')', ')', '__attribute__', '(', '(', 'packed', ')', ')'], {'is_packed': 1, 'align': 'N'}),
+        ('none', [], {'is_packed': 0, 'align': 'A0'}),
+    ]
+    for name, seq, want in cases:
+        key = '%s:attribute_list:%s' % (PU, name)
+        try:
+            it = Interp(P, u, {'models': tw.models(), 'cut': {'const_expr': _cut_const_expr('N')}})
+
+            def mk(ctx):
+                t = Obj('Type', lazy=False, label='ty')
+                t.fields.update({'align': Sym('A0', 'int'), 'is_packed': 0})
+                ctx.c08ty = t
+                return [tw.tokens(seq), t]
+            paths = it.explore('attribute_list', mk, max_paths=50)
+        except AnalysisBroken as ex:
+            rep.undecided('R08.3', key, 'attribute_list not interpretable on `%s`: %s' % (' '.join(seq), ex), where=where)
+            continue
+        if len(paths) != 1:
+            rep.undecided('R08.3', key, '%d paths for a concrete attribute list' % len(paths), where=where)
+            continue
+        ctx, out = paths[0]
+        spelled = ' '.join(seq) or '(no attribute)'
+        if out[0] != 'ret':
+            rep.ob('R08.3', key, False, '`struct %s {...}` is rejected by %s()' % (spelled, out[1]), where=where)
+            continue
+        t = ctx.c08ty
+        pk = t.fields.get('is_packed', 0)
+        pk = it.settle(pk) if isinstance(pk, View) else pk
+        al = t.fields.get('align')
+        bad = []
+        if int(bool(pk)) != want['is_packed'] if isinstance(pk, (int, bool)) else True:
+            bad.append('is_packed is %r, must be %d' % (pk, want['is_packed']))
+        if not _is_just(al, want['align']):
+            bad.append('the type\'s alignment is %r, must be %s' % (al, 'the aligned() argument' if want['align'] == 'N' else 'left alone'))
+        nxt = out[1]
+        if not (isinstance(nxt, Obj) and nxt.fields.get('loc') == 'x'):
+            bad.append('the attribute list is not consumed completely')
+        rep.ob('R08.3', key, not bad, '`struct %s {...}`: %s (the layout loops read these two fields)' % (spelled, '; '.join(bad)), where=where)
+
+
+def r084_alignas_specifier(P, u, rep):
+    """declspec: `_Alignas(type)` records the type's alignment, `_Alignas(n)` the constant"""
+    fn = u.fn('declspec')
+    where = '%s:%d' % (PU, fn.line)
+    tw = TokenWorld(P, u)
+
+    def cut_typename(it, ctx, call, args):
+        rest, tok = args[0], args[1]
+        if not (isinstance(rest, _Ref) and isinstance(tok, Obj)):
+            raise AnalysisBroken('typename() called with unexpected arguments')
+        rest.place.set(it, tok.fields.get('next'))
+        t = Obj('Type', lazy=False, label='named-type')
+        t.fields.update({'size': Sym('TS', 'int'), 'align': Sym('TAL', 'int'), 'kind': u.enums.get('TY_INT', 0)})
+        return t
+    for name, seq, want, what in (('_Alignas(type)', ['_Alignas', '(', 'long', ')', 'char'], 'TAL', 'the alignment of the named type'),
+                                  ('_Alignas(constant)', ['_Alignas', '(', '32', ')', 'char'], 'N', 'the value of the constant expression')):
+        key = '%s:declspec:%s' % (PU, name)
+        try:
+            it = _LocalEnumInterp(P, u, {'models': tw.models(), 'cut': {'const_expr': _cut_const_expr('N'), 'typename': cut_typename},
+                                         'globals': {g: (lambda ctx, g=g, f=f: Obj('Type', lazy=False, label=g, fields=dict(f))) for g, f in type_globals(P).items()}})
+            it.local_enums = _local_enums(fn)
+
+            def mk(ctx):
+                a = Obj('VarAttr', lazy=False, label='attr')
+                ctx.c08attr = a
+                return [_Ref(_ValPlace(0)), tw.tokens(seq), a]
+            paths = it.explore('declspec', mk, max_paths=50)
+        except AnalysisBroken as ex:
+            rep.undecided('R08.4', key, 'declspec not interpretable on `%s`: %s' % (' '.join(seq), ex), where=where)
+            continue
+        if len(paths) != 1:
+            rep.undecided('R08.4', key, '%d paths for a concrete specifier list' % len(paths), where=where)
+            continue
+        ctx, out = paths[0]
+        if out[0] != 'ret':
+            rep.ob('R08.4', key, False, '`%s x;` is rejected by %s()' % (' '.join(seq), out[1]), where=where)
+            continue
+        al = ctx.c08attr.fields.get('align', 0)
+        rep.ob('R08.4', key, _is_just(al, want),
+               '`%s x;` records alignment %r for x instead of %s' % (' '.join(seq), al, what), where=where)
+
+
+# =====================================================================================
 # R08.4 sizeof/_Alignof result type; _Alignas reaches the object
 # =====================================================================================
 def _ctor_type(u, name, tg):
@@ -704,9 +876,48 @@ def _in_subtree(node, root):
     return False
 
 
+def _flexible_array(rep, it, paths, where):
+    """a trailing array of unknown length becomes a zero-length array of the same element type and marks the struct flexible"""
+    key = '%s:struct_members:flexible-array-member' % PU
+    seen = 0
+    bad = None
+    for ctx, out in paths:
+        if out[0] != 'ret':
+            continue
+        for e in ctx.events:
+            if e[0] == 'call' and e[1] == 'array_of':
+                seen += 1
+                args = e[2]
+                ln = args[1] if len(args) > 1 else None
+                ln = it.settle(ln) if isinstance(ln, View) else ln
+                # the member whose type is replaced by the result
+                tgt = [x for x in ctx.events if x[0] == 'fstore' and x[2] == 'ty' and (x[4] is e[4] or (isinstance(x[4], View) and isinstance(e[4], View) and x[4].cell is e[4].cell))]
+                flex = [x for x in ctx.events if x[0] == 'fstore' and x[2] == 'is_flexible' and isinstance(x[1], Obj) and x[1].label == 'ty']
+                if not (isinstance(ln, int) and ln == 0):
+                    bad = bad or 'the flexible array member is given length %r instead of 0: sizeof the struct would include elements of the flexible array' % (ln,)
+                elif not tgt:
+                    bad = bad or 'the zero-length array type is not stored back into the last member'
+                else:
+                    old = tgt[0][3]
+                    old = it.settle(old) if isinstance(old, View) else old
+                    base = args[0]
+                    base = it.settle(base) if isinstance(base, View) else base
+                    ob = old.fields.get('base') if isinstance(old, Obj) else None
+                    ob = it.settle(ob) if isinstance(ob, View) else ob
+                    if ob is not base:
+                        bad = bad or 'the zero-length array is built from another element type than the declared one'
+                    fl = flex[-1][4] if flex else 0
+                    if not (isinstance(fl, (int, bool)) and int(fl) == 1):
+                        bad = bad or 'the struct is not marked is_flexible'
+    if not seen:
+        rep.undecided('R08.3', key, 'no path of struct_members() rebuilds a trailing incomplete array with array_of()', where=where)
+    else:
+        rep.ob('R08.3', key, bad is None, bad or '', where=where)
+
+
 def r084(P, u, rep):
     rep.rule('R08.4', 'sizeof and _Alignof yield the size / the alignment of the operand type as an unsigned long; an _Alignas specifier reaches the '
-             'object or member it declares (else the type\'s alignment) at every declaration site', floor=8)
+             'object or member it declares (else the type\'s alignment) at every declaration site', floor=12)
     tg = type_globals(P)
     prim = u.fn('primary')
     arms = {}
@@ -890,6 +1101,8 @@ def r084(P, u, rep):
                     cur = res.get(k)
                     if cur is None or (cur[0] and not ok):
                         res[k] = [ok, msg, {'path': ctx.trail[-10:], 'alignment': fgot.text}]
+        if fname == 'struct_members':
+            _flexible_array(rep, it, paths, where)
         if broken and not res:
             rep.undecided('R08.4', '%s:%s:alignas' % (PU, fname), 'declaration site not interpretable: %s' % broken, where=where)
         elif not nobj:
@@ -917,6 +1130,7 @@ def type_globals(P):
 
 
 def header_typedefs(P, rel):
+    """{typedef name: (spelled type, line, [field types] or None)} of a bundled header, via clang's AST"""
     path = P.header(rel)
     p = subprocess.run(['clang-14', '-x', 'c', '-std=c11', '-w', '-nostdinc', '-fsyntax-only', '-Xclang', '-ast-dump=json', path],
                        capture_output=True, text=True)
@@ -924,16 +1138,49 @@ def header_typedefs(P, rel):
         raise AnalysisBroken('clang failed on %s: %s' % (rel, p.stderr[-300:]))
     top = json.loads(p.stdout)
     out = {}
+    records = {}
     real = os.path.realpath(path)
     cur = None
+    line = 0
     for d in top.get('inner', []):
         loc = d.get('loc', {})
         f = loc.get('file') or (loc.get('expansionLoc') or {}).get('file')
         if f:
             cur = f
+        if loc.get('line'):
+            line = loc.get('line')
+        if d.get('kind') == 'RecordDecl':
+            fields = [c.get('type', {}).get('qualType') for c in d.get('inner', []) if c.get('kind') == 'FieldDecl']
+            records[d.get('id')] = (d.get('tagUsed'), fields)
+            if d.get('name'):
+                records[d.get('tagUsed', 'struct') + ' ' + d['name']] = (d.get('tagUsed'), fields)
         if d.get('kind') == 'TypedefDecl' and not d.get('isImplicit') and cur and os.path.realpath(cur) == real:
-            out[d.get('name')] = (d.get('type', {}).get('qualType'), loc.get('line') or 0)
+            qt = d.get('type', {}).get('qualType')
+            rec = None
+            for c in d.get('inner', []):
+                own = c.get('ownedTagDecl')
+                if own and own.get('id') in records:
+                    rec = records[own['id']]
+            if rec is None and qt in records:
+                rec = records[qt]
+            out[d.get('name')] = (qt, line, rec)
     return out
+
+
+def _ctype_align(t, rec=None, depth=0):
+    """LP64 alignment of a C type as spelled by clang (scalars, pointers, arrays, and records given their field types)"""
+    t = (t or '').replace('const ', '').replace('volatile ', '').strip()
+    if rec is not None:
+        als = [_ctype_align(f, None, depth + 1) for f in rec[1]]
+        if not als or None in als:
+            return None
+        return max(als)
+    if t.endswith('*') or '(*' in t:
+        return 8
+    if t.endswith(']'):
+        return _ctype_align(t[:t.rindex('[')], None, depth + 1)
+    a = _lp64_of_spelling(t)
+    return a[2] if a else None
 
 
 def _lp64_of_spelling(t):
@@ -968,7 +1215,7 @@ def _ty_arg_of_branch(fn, lit):
 
 def r085(P, u, rep):
     rep.rule('R08.5', 'size_t / ptrdiff_t / wchar_t / max_align_t of include/stddef.h are the types the compiler itself gives to sizeof, pointer difference and wide literals, '
-             'and those are the psABI types (unsigned long, long, int; max_align_t aligned to 16)', floor=7)
+             'and those are the psABI types (unsigned long, long, int; max_align_t aligned to 16)', floor=9)
     H = 'include/stddef.h'
     tds = header_typedefs(P, H)
     tg = type_globals(P)
@@ -983,7 +1230,7 @@ def r085(P, u, rep):
         if name not in tds:
             rep.undecided('R08.5', '%s:%s:typedef' % (H, name), 'typedef %s vanished from %s' % (name, H))
             return None, None
-        t, line = tds[name]
+        t, line, _rec = tds[name]
         a = _lp64_of_spelling(t)
         if a is None:
             rep.undecided('R08.5', '%s:%s:typedef' % (H, name), 'typedef %s is `%s`: not a plain arithmetic type the oracle can size' % (name, t), where='%s:%d' % (H, line))
@@ -1077,12 +1324,12 @@ def r085(P, u, rep):
     if 'max_align_t' not in tds:
         rep.undecided('R08.5', '%s:max_align_t:typedef' % H, 'typedef max_align_t vanished')
     else:
-        t, line = tds['max_align_t']
-        a = _lp64_of_spelling(t)
+        t, line, rec = tds['max_align_t']
+        al = _ctype_align(t, rec)
         mx = max([int(f['align']) for g, f in tg.items() if isinstance(f['align'], int)] or [0])
-        if a is None:
+        if al is None:
             rep.undecided('R08.5', '%s:max_align_t:alignment' % H, 'max_align_t is `%s`: the oracle cannot compute its alignment' % t, where='%s:%d' % (H, line))
         else:
-            rep.ob('R08.5', '%s:max_align_t:alignment' % H, a[2] >= max(mx, 16),
-                   'max_align_t is `%s` (alignment %d) but the most aligned scalar type has alignment %d (long double; psABI: _Alignof(max_align_t) == 16): storage aligned for max_align_t is misaligned for long double' % (t, a[2], max(mx, 16)),
+            rep.ob('R08.5', '%s:max_align_t:alignment' % H, al >= max(mx, 16),
+                   'max_align_t is `%s` (alignment %d) but the most aligned scalar type has alignment %d (long double; psABI: _Alignof(max_align_t) == 16): storage aligned for max_align_t is misaligned for long double' % (t, al, max(mx, 16)),
                    where='%s:%d' % (H, line))
